@@ -31,9 +31,6 @@ func evaluate(prop string, c *Case, v *merge.Verdict, ir *implResult) []finding 
 		return fs
 	}
 	implFail := ir.err != nil
-	if c.Family == "argsmarker" && prop != "C01" && prop != "C02" {
-		return nil // only the ownership verdicts are defined for a lone command-line marker
-	}
 	switch prop {
 	case "C01":
 		if v.Fail && !v.DontCare {
